@@ -219,7 +219,7 @@ def run_program(prog):
                 expect, statuses = "fail-dir", None
         if "stale-tmp" in prior:
             # what a build killed while its script was writing $3 leaves behind
-            (p / "t.redo.tmp").write_bytes(b"partial output of a build that was killed\n")
+            (p / ("t" + common.tmp_suffix())).write_bytes(b"partial output of a build that was killed\n")
         (p / "t.do").write_text(body % {"half": max(1, size // 2)} + "\n")
         senv, log, procs = e3.shim_env(env, root, "obs", observe=root / "o.sock")
         obs = []
@@ -290,7 +290,7 @@ def run_program(prog):
         if expect == "ok-new":
             # the rename source must be the temp file next to the target
             rn = [c for c in calls if c.redo and c.path2 == tp]
-            if rn and not rn[0].path.endswith("/t.redo.tmp"):
+            if rn and not rn[0].path.endswith("/t" + common.tmp_suffix()):
                 V.append(("rename-from-unexpected-source", "rename", "target", rn[0].path))
         res["t"] = round(time.time() - t0, 3)
         res["prior_state"] = prior_state
